@@ -15,6 +15,7 @@ import (
 	"os"
 	"path/filepath"
 	"strconv"
+	"strings"
 	"sync"
 
 	"github.com/thomasjungblut/go-sstables/recordio"
@@ -211,6 +212,19 @@ func recoverDB(dir string, keys []string) {
 		// the recovering session uses small buffers: every few bytes of the table it flushes reach the file system on
 		// their own (with the 4 MiB defaults a small table is written in one piece when it is closed)
 		ropts = append(ropts, simpledb.WriteBufferSizeBytes(16), simpledb.ReadBufferSizeBytes(4096))
+	}
+	// VCHILD_RECOVER_OPTS: the recovering session is opened with other options than the defaults
+	for _, o := range strings.Split(os.Getenv("VCHILD_RECOVER_OPTS"), ",") {
+		switch o {
+		case "nocompaction":
+			ropts = append(ropts, simpledb.DisableCompactions())
+		case "mem1":
+			ropts = append(ropts, simpledb.MemstoreSizeBytes(1))
+		case "async":
+			ropts = append(ropts, simpledb.EnableAsyncWAL())
+		case "thresh0":
+			ropts = append(ropts, simpledb.CompactionFileThreshold(0))
+		}
 	}
 	db, err := simpledb.NewSimpleDB(dir, ropts...)
 	if err == nil {
